@@ -236,7 +236,10 @@ def express(D, d, xs, S, rng, forms):
             out.append(t)
             desc.append({"c": "str", "s": t, "n": 0})
         elif D.get("nest"):
-            out.append(d.exec_nodes[nested_ids(D)[k - 1]])        # ids of nested nodes carry the prefix: name them by reference
+            # ids of nested nodes carry the prefix: name them by reference (a node the built DAG lacks is named by the id it
+            # should have: the library then refuses the selection, and a whole-DAG call does not execute it - both are judged)
+            nid = nested_ids(D)[k - 1]
+            out.append(d.exec_nodes.get(nid, nid))
             desc.append({"c": "ref", "s": "", "n": k})
         elif form == "ref" or shadow:
             out.append(d.exec_nodes[f"f{k}"] if rng.random() < 0.5 else xs[k])
